@@ -2,6 +2,7 @@ package graph
 
 import (
 	"fmt"
+	"reflect"
 
 	"verif/harness/model"
 )
@@ -31,6 +32,9 @@ func CheckWiringOpt(g *model.Graph, o WiringOpts) error {
 		for _, p := range g.Points[c] {
 			if o.Only != nil && !o.Only(p) {
 				continue
+			}
+			if !injectableType(p.Field.Type) {
+				continue // a wire / func tag on a type nothing can be injected into (decoy fields): checked by value elsewhere
 			}
 			obs := Observe(g, p)
 			seen := map[*model.Comp]bool{}
@@ -75,6 +79,13 @@ func CheckWiringOpt(g *model.Graph, o WiringOpts) error {
 		}
 	}
 	return nil
+}
+
+func injectableType(t reflect.Type) bool {
+	if t.Kind() == reflect.Slice {
+		t = t.Elem()
+	}
+	return t.Kind() == reflect.Pointer || t.Kind() == reflect.Interface
 }
 
 func inSet(xs []*model.Comp, c *model.Comp) bool {
